@@ -81,7 +81,19 @@ func c09Catalogue(t *sim.T, m *gen.StaticModel, tb *gen.Table, variant int) []in
 		}
 		out = append(out, injection{tb.Name, cause, r})
 	}
-	fresh := func(p string) string { return fmt.Sprintf("%s_fresh_%d", p, variant) }
+	fresh := func(p string) string {
+		if variant%3 == 1 {
+			// an id shaped like the ids other feeds of this process use (every generated feed numbers its
+			// entities s0, s1, ...; r0, ...): unknown here, but known to an earlier parse
+			short := map[string]string{"ag": "ag", "noagency": "ag", "r": "r", "noroute": "r", "nostop": "s", "svc": "svc", "nosvc": "svc", "t": "t", "notrip": "t"}[p]
+			pool := map[string]int{"ag": len(m.AgencyIDs), "r": len(m.RouteIDs), "s": len(m.StopIDs), "svc": len(m.ServiceIDs), "t": len(m.TripIDs)}[short]
+			if short != "" {
+				// the next few numbers after this feed's own ids: other (larger) feeds use exactly those
+				return fmt.Sprintf("%s%d", short, pool+(variant/3)%4)
+			}
+		}
+		return fmt.Sprintf("%s_fresh_%d", p, variant)
+	}
 	pickU := func(xs []string) string { return xs[variant%len(xs)] }
 	some := func(ids []string) string {
 		if len(ids) == 0 {
@@ -363,6 +375,17 @@ func runC09(t *sim.T, tier string) *sim.Violation {
 			}
 			pl = append(pl, placed{inj, pos})
 			fmt.Fprintf(&desc, "[%s@%d %s] ", inj.file, pos+1, inj.cause)
+			if t.Chance(1, 3) {
+				// the very same rejected row once more, directly after or a few rows later (a memo keyed by
+				// the offending value must not accept the repetition)
+				pos2 := pos
+				if tb2 := m.Feed.Table(inj.file); tb2 != nil && t.Chance(1, 2) {
+					pos2 = pos + t.Choose(len(tb2.Rows)-pos+1)
+				}
+				pl = append(pl, placed{inj, pos2})
+				fmt.Fprintf(&desc, "[%s@%d same row again] ", inj.file, pos2+1)
+				t.Probe("repeated-identical-bad-row")
+			}
 		}
 		if len(pl) == 0 {
 			continue
